@@ -14,7 +14,7 @@ def Ref0 (I : Nat → Prop) (S : Subst → Prop) (st : State) : Res State → Pr
   | .ok st' => WFS st' ∧ Inv st' ∧ ∀ γ, Sem I γ st' ↔ (Sem I γ st ∧ S γ)
   | .fail => ∀ γ, ¬ (Sem I γ st ∧ S γ)
   | .fuel => True
-  | .panic _ => True
+  | .panic _ => False
 
 theorem sem_ignore_absent {st : State} {x : Nat} (hx : st.dget x = none) (γ : Subst) :
     Sem (fun y => I y ∨ y = x) γ st ↔ Sem I γ st := by
@@ -74,7 +74,8 @@ theorem extStep_sem {snap cur : State} (hI : IOK I cur) (w : WFS cur) (hi : Inv 
     | .ok s3 => WFS s3 ∧ Inv s3 ∧ Ext cur.σ s3.σ ∧ (∀ y, s3.σ y = .var y → cur.σ y = .var y) ∧
         (∀ y, y ≠ x → cur.σ y ≠ .var y → s3.dget y = cur.dget y) ∧ (∀ γ, Sem I γ s3 ↔ Sem I γ cur)
     | .fail => ∀ γ, ¬ Sem I γ cur
-    | _ => True := by
+    | .fuel => True
+    | .panic _ => False := by
   cases hsd : snap.dget x with
   | none =>
     show WFS cur ∧ Inv cur ∧ Ext cur.σ cur.σ ∧ (∀ y, cur.σ y = .var y → cur.σ y = .var y) ∧
@@ -106,7 +107,7 @@ theorem extStep_sem {snap cur : State} (hI : IOK I cur) (w : WFS cur) (hi : Inv 
       have w2' : WFS (s2.dremove x) :=
         ⟨w2.solved, (List.Sublist.map (fun q : Nat × FD => q.1) List.filter_sublist).nodup w2.dnodup,
          fun p hp => w2.dwf p (List.mem_filter.1 hp).1, w2.nodist⟩
-      have i2' : Inv (s2.dremove x) := SameStore.inv ⟨rfl, rfl, rfl, rfl⟩ i2
+      have i2' : Inv (s2.dremove x) := SameStore.inv ⟨rfl, rfl, rfl, rfl, rfl⟩ i2
       have hI2' : IOK I' (s2.dremove x) := (hI'.keep k2).same rfl
       have hnone : (s2.dremove x).dget x = none := by
         cases h : (s2.dremove x).dget x with
@@ -142,7 +143,7 @@ theorem extStep_sem {snap cur : State} (hI : IOK I cur) (w : WFS cur) (hi : Inv 
         have hs' := (sem_split_entry w hdx hnI γ).1 hs
         exact p3 γ ⟨(sem_ignore_dremove γ).2 ((sem2 γ).2 ⟨hs'.1, (hin γ hs.1).2 hs'.2⟩), trivial⟩
       | fuel => trivial
-      | panic s => trivial
+      | panic s => rw [hr] at p3; exact p3
     | fail =>
       rw [hp] at p1
       simp only [Res.bind]
@@ -150,7 +151,7 @@ theorem extStep_sem {snap cur : State} (hI : IOK I cur) (w : WFS cur) (hi : Inv 
       have hs' := (sem_split_entry w hdx hnI γ).1 hs
       exact p1 γ ⟨hs'.1, (hin γ hs.1).2 hs'.2⟩
     | fuel => trivial
-    | panic s => trivial
+    | panic s => rw [hp] at p1; exact p1
 
 end Step
 end Pv
@@ -182,7 +183,8 @@ theorem extFold_sem {ord : Order} (ho : OrderOK ord) (snap : State) (σ' : Subst
       match ps.foldl (fun (r : Res State) p => r.bind fun cur => extStep ord snap cur p) (.ok cur) with
       | .ok s' => WFS s' ∧ Inv s' ∧ (∀ γ, Sem I γ s' ↔ Sem I γ cur)
       | .fail => ∀ γ, ¬ Sem I γ cur
-      | _ => True
+      | .fuel => True
+      | .panic _ => False
   | [], cur, _, w, hi, _, _, _, _, _, _ => ⟨w, hi, fun _ => Iff.rfl⟩
   | p :: ps, cur, hI, w, hi, hn, hb, hH, hext, hmono, hdg => by
     simp only [List.foldl_cons]
@@ -220,13 +222,13 @@ theorem extFold_sem {ord : Order} (ho : OrderOK ord) (snap : State) (σ' : Subst
         rw [hf] at ih
         exact fun γ hs => ih γ ((sem3 γ).2 hs)
       | fuel => trivial
-      | panic s => trivial
+      | panic s => rw [hf] at ih; exact ih
     | fail =>
       rw [hs] at step
       rw [foldl_bind_fail]
       exact step
     | fuel => rw [foldl_bind_fuel]; trivial
-    | panic s => rw [foldl_bind_panic]; trivial
+    | panic s => rw [hs] at step; exact step.elim
 
 end Pv
 
@@ -240,7 +242,7 @@ theorem Ref.to0 {S : Subst → Prop} {st : State} {r : Res State} (h : Ref I S s
   | ok st' => exact ⟨h.1, hi st' rfl, h.2.2⟩
   | fail => exact h
   | fuel => trivial
-  | panic s => trivial
+  | panic s => exact h
 
 section Top
 variable {ord : Order} (ho : OrderOK ord)
@@ -272,7 +274,7 @@ theorem unify_sem {st : State} (hI : IOK I st) (w : WFS st) (hi : Inv st) (u v :
       have hd0 : st0.dstore = st.dstore := by subst hst0; rfl
       have w0 : WFS st0 := ⟨by rw [hσ0]; exact s', by rw [hd0]; exact w.dnodup, by rw [hd0]; exact w.dwf,
         by rw [hs0]; exact w.nodist⟩
-      have i0 : Inv st0 := by subst hst0; exact SameStore.inv ⟨rfl, rfl, rfl, rfl⟩ hi
+      have i0 : Inv st0 := by subst hst0; exact SameStore.inv ⟨rfl, rfl, rfl, rfl, rfl⟩ hi
       have hI0 : IOK I st0 := fun y hy e => hI y hy (hmono y (by rw [← hσ0]; exact e))
       have sem0 : ∀ γ, Sem I γ st0 ↔ (Sem I γ st ∧ apply γ u = apply γ v) := fun γ => by
         unfold Sem DomSem
@@ -299,7 +301,7 @@ theorem unify_sem {st : State} (hI : IOK I st) (w : WFS st) (hi : Inv st) (u v :
         | ok s2 =>
           rw [hf] at fold
           obtain ⟨w2, i2, sem2⟩ := fold
-          refine ⟨w2.same rfl rfl fun p hp => .inl hp, SameStore.inv ⟨rfl, rfl, rfl, rfl⟩ i2, fun γ => ?_⟩
+          refine ⟨w2.same rfl rfl fun p hp => .inl hp, SameStore.inv ⟨rfl, rfl, rfl, rfl, rfl⟩ i2, fun γ => ?_⟩
           have hsm : Sem I γ { s2 with extLog := e :: s2.extLog } ↔ Sem I γ s2 := sem_same rfl rfl rfl γ
           rw [hsm, sem2 γ, sem1 γ, sem0 γ]
           exact ⟨fun a => a.1, fun a => ⟨a, trivial⟩⟩
@@ -308,13 +310,13 @@ theorem unify_sem {st : State} (hI : IOK I st) (w : WFS st) (hi : Inv st) (u v :
           intro γ hs
           exact fold γ ((sem1 γ).2 ⟨(sem0 γ).2 hs, trivial⟩)
         | fuel => trivial
-        | panic s => trivial
+        | panic s => rw [hf] at fold; exact fold
       | fail =>
         rw [hr] at p1
         intro γ hs
         exact p1 γ ⟨(sem0 γ).2 hs, trivial⟩
       | fuel => trivial
-      | panic s => trivial
+      | panic s => rw [hr] at p1; exact p1
 
 /-- `!=` -/
 theorem disunify_sem {st : State} (w : WFS st) (hi : Inv st) (u v : Term) :
@@ -377,7 +379,7 @@ theorem postCst_sem {st : State} (hI : IOK I st) (w : WFS st) (hi : Inv st) (c :
     intro γ ⟨a, b⟩
     exact body γ ⟨(sem_same hσ0 hs0 hd0 γ).2 a, b⟩
   | fuel => trivial
-  | panic s => trivial
+  | panic s => rw [hb] at body; exact body
 
 /-- `DomFd` (`infd` on one term) with a well-formed domain -/
 theorem domFd_sem {st : State} (hI : IOK I st) (w : WFS st) (hi : Inv st) (x : Term) (d : FD) (hd : WF d) :
